@@ -326,7 +326,15 @@ def drive_wd(item):
     sb.write("workflow.py", "\n".join(lines) + "\n")
     sb.write(".gwfconf.json", json.dumps({"backend": "slurm"}))
     runs = []
-    for cwd, args in ((P, []), (nested, []), (unrelated, ["-f", os.path.join(P, "workflow.py")])):
+    # a relative -f with a directory part, from a directory where it does not exist: gwf searches the ancestors for
+    # that relative path; an unrelated workflow.py sits in the common ancestor
+    above = os.path.dirname(P)
+    side = os.path.join(above, "other", "deep")
+    os.makedirs(side, exist_ok=True)
+    with open(os.path.join(above, "workflow.py"), "w") as fh:
+        fh.write("from gwf import Workflow\ngwf = Workflow()\ngwf.target('decoy', inputs=[], outputs=[]) << 'true'\n")
+    rel_f = os.path.join(os.path.basename(P), "workflow.py")
+    for cwd, args in ((P, []), (nested, []), (unrelated, ["-f", os.path.join(P, "workflow.py")]), (side, ["-f", rel_f])):
         r = sb.gwf(args + ["status"], cwd=cwd, sub=(variant % 2 == 0))
         table, bad = cli_defs.parse_status_table(r.stdout)
         ri = sb.gwf(args + ["info"], cwd=cwd)
@@ -339,9 +347,13 @@ def drive_wd(item):
             dep_seen = False
         runs.append({"cwd": os.path.relpath(cwd, P) if cwd.startswith(P) else "unrelated", "exit": r.exit_code if not bad and r.exc is None else -1,
                      "status": table, "ntargets": len(table), "dep_seen": dep_seen,
-                     "gwfdir_ok": os.path.isdir(os.path.join(P, ".gwf")) and not os.path.exists(os.path.join(cwd, ".gwf")) or cwd == P,
+                     "gwfdir_ok": (os.path.isdir(os.path.join(P, ".gwf")) and not os.path.exists(os.path.join(cwd, ".gwf")) or cwd == P)
+                                  and not os.path.exists(os.path.join(above, ".gwf")),
                      "err": (r.stderr or "")[-200:]})
     shutil.rmtree(unrelated, ignore_errors=True)
+    shutil.rmtree(os.path.join(above, "other"), ignore_errors=True)
+    shutil.rmtree(os.path.join(above, ".gwf"), ignore_errors=True)
+    os.remove(os.path.join(above, "workflow.py"))
     return {"id": rid, "scn": dict(scn, variant=variant), "obs": {"runs": runs}}
 
 
